@@ -114,6 +114,36 @@ let show_sout = function
   | SPanic _ -> "PANIC"
   | SErr (IteratorLengthMismatch (a, e)) -> Printf.sprintf "ERR IteratorLengthMismatch:%s:%s" (hex_of_n a) (hex_of_n e)
 
+let show_rows (rs : row list) : string =
+  String.concat ";" (List.map (fun r ->
+      Printf.sprintf "%s|%s|%s|%s"
+        (String.concat "." (List.map (fun nm -> String.concat "" (List.map (fun c -> String.make 1 (Char.chr (int_of_n c))) nm)) r.r_path))
+        (hex_of_n r.r_off) (hex_of_n r.r_size) (hex_of_n r.r_align)) rs)
+
+(* run-length encoded sequence of outcome codes *)
+let rle (codes : string list) : string =
+  let b = Buffer.create 64 in
+  let rec go cur n = function
+    | [] -> if n > 0 then Buffer.add_string b (Printf.sprintf "%s*%d " cur n)
+    | c :: r -> if c = cur then go cur (n + 1) r
+      else begin (if n > 0 then Buffer.add_string b (Printf.sprintf "%s*%d " cur n)); go c 1 r end in
+  go "" 0 codes;
+  Buffer.contents b
+
+let code_of show = function
+  | Ok ((v, _), _) -> "OK:" ^ show v
+  | Err e -> "E:" ^ show_err e
+  | Panic _ -> "P"
+
+let rec take n l = if n = 0 then [] else match l with [] -> [] | x :: r -> x :: take (n - 1) r
+
+let flip_bit (bytes : n list) (i : int) : n list =
+  List.mapi (fun j b -> if j = i / 8 then n_of_int ((int_of_n b) lxor (1 lsl (i mod 8))) else b) bytes
+
+let set_bytes (bytes : n list) (off : int) (nw : n list) : n list =
+  let k = List.length nw in
+  List.mapi (fun j b -> if j >= off && j < off + k then List.nth nw (j - off) else b) bytes
+
 let types : (string, ty) Hashtbl.t = Hashtbl.create 256
 
 let run_case cid t h v ops =
@@ -132,6 +162,74 @@ let run_case cid t h v ops =
       | ["eps"; r] ->
         if out = SDone then
           Printf.printf "%s eps:%s %s\n" cid r (show_res show_val (deser_eps_top (n_of_hex r) h dt bytes))
+      | ["tinfo"] ->
+        let b x = if x then "1" else "0" in
+        Printf.printf "%s tinfo pow2=%s wf=%s wt=%s deser=%s exh=%s unit=%s\n" cid (b (units_pow2 t)) (b (wf t)) (b (wt t v))
+          (b (deserializable dt)) (b (exhausted_in t v)) (hex_of_n (unit_of dt))
+      | ["schema"] ->
+        let rs = schema_of evs in
+        if out = SDone then
+          Printf.printf "%s schema %s rows=%s csv=ok debug=%s\n" cid (show_sout out) (show_rows rs)
+            (if debug_ok (evs_len evs) rs then "ok" else "panic")
+        else Printf.printf "%s schema %s\n" cid (show_sout out)
+      | ["cuts"; base] ->
+        (* every strict prefix, both modes: only the outcome class is kept *)
+        if out = SDone then begin
+          let nb = List.length bytes in
+          let fc = ref [] and ec = ref [] in
+          for k = nb - 1 downto 0 do
+            let pre = take k bytes in
+            fc := (match deser_full_top h dt pre with Ok _ -> "OK" | Err e -> show_err e | Panic _ -> "P") :: !fc;
+            ec := (match deser_eps_top (n_of_hex base) h dt pre with Ok _ -> "OK" | Err e -> show_err e | Panic _ -> "P") :: !ec
+          done;
+          Printf.printf "%s cuts:%s full=%s eps=%s\n" cid base (rle !fc) (rle !ec)
+        end
+      | ["flips"; base] ->
+        (* every single-bit flip of the 29 fixed header bytes, reversed cookie, minor versions *)
+        if out = SDone then begin
+          let res = ref [] in
+          let test tag bs =
+            let f = code_of show_val (deser_full_top h dt bs) and e = code_of (fun v -> show_val (erase v)) (deser_eps_top (n_of_hex base) h dt bs) in
+            res := (tag ^ "=" ^ (if f = e then f else f ^ "//" ^ e)) :: !res in
+          for i = 0 to 29 * 8 - 1 do test (string_of_int i) (flip_bit bytes i) done;
+          test "rev" (set_bytes bytes 0 (List.rev (take 8 bytes)));
+          List.iter (fun m -> test ("minor" ^ string_of_int m) (set_bytes bytes 10 [n_of_int (m land 255); n_of_int (m lsr 8)]))
+            [0; 1; 2; 255; 256; 65535];
+          Printf.printf "%s flips:%s %s\n" cid base (String.concat " " (List.rev !res))
+        end
+      | ["tags"; base; counts] ->
+        if out = SDone then begin
+          let counts = List.map int_of_string (List.filter (fun x -> x <> "") (String.split_on_char ',' counts)) in
+          let rs = schema_of evs in
+          let last_is nm (r : row) = (match List.rev r.r_path with x :: _ -> x = nm | [] -> false) in
+          let tagrows = List.filter (fun r -> (last_is n_Tag r && int_of_n r.r_size = 1) || (last_is n_tag r && int_of_n r.r_size = 8)) rs in
+          if List.length tagrows <> List.length counts then
+            Printf.printf "%s tags:%s TAGROWS-MISMATCH rows=%d expected=%d\n" cid base (List.length tagrows) (List.length counts)
+          else begin
+            let parts = List.map2 (fun (r : row) n ->
+                let off = int_of_n r.r_off and size = int_of_n r.r_size in
+                let nn = n_of_int n in
+                let vals : n list =
+                  if size = 1 then List.init (256 - n) (fun i -> n_of_int (n + i))
+                  else List.filter (fun x -> Model.N.leb nn x)
+                      [nn; n_of_int (n + 1); n_of_int 255; n_of_int 256; n_of_hex "100000000"; n_of_hex "8000000000000000"; n_of_hex "ffffffffffffffff"] in
+                let codes = List.map (fun x ->
+                    let m = set_bytes bytes off (le_bytes (if size = 1 then S O else S (S (S (S (S (S (S (S O)))))))) x) in
+                    let f = code_of show_val (deser_full_top h dt m) and e = code_of (fun v -> show_val (erase v)) (deser_eps_top (n_of_hex base) h dt m) in
+                    hex_of_n x ^ ">" ^ (if f = e then f else f ^ "//" ^ e)) vals in
+                Printf.sprintf "@%x/%d:%s" off size (String.concat "," codes)) tagrows counts in
+            Printf.printf "%s tags:%s %s\n" cid base (String.concat " " parts)
+          end
+        end
+      | ["place"; base] ->
+        (* base address residues 0..127 *)
+        if out = SDone then begin
+          let b0 = n_of_hex base in
+          let codes = List.init 128 (fun r ->
+              match deser_eps_top (Model.N.add b0 (n_of_int r)) h dt bytes with
+              | Ok _ -> "OK" | Err e -> show_err e | Panic _ -> "P") in
+          Printf.printf "%s place:%s %s\n" cid base (rle codes)
+        end
       | _ -> failwith ("op " ^ op)) ops
 
 let run ic =
